@@ -322,6 +322,32 @@ for name in RULES:
                 rep.fail(f"rule-abandon-then-again::{'generators' if gens else 'lists'}::{'order' if sorted(got) == sorted(ref) else 'content'}",
                          f"rule tree '{name}' abandoned after {k} of {len(ref)} results, then evaluated again: {got}, alone {ref}", dict(inp, schedule=f"abandon-{k}"))
                 break
+# a rule tree that grows between evaluations (the ripple-down workflow: evaluate, look, add an exception, evaluate again)
+for name in RULES:
+    if name == "base":
+        continue
+    inp = {"rule": name, "history": "evaluate, extend the tree, evaluate, evaluate"}
+    st, ref = guarded(lambda: [rr(r) for r in build_rule(name, False).evaluate()])
+    if st == "exc":
+        continue
+    items = [Item(i) for i in range(8)]
+    x = let(Item, items)
+    q = an(entity(v := inference(Base)(), x.a >= 0, x.a < 5))
+    with q:
+        Add(v, inference(KINDS[0])(item=x))
+    st, first = guarded(lambda: [rr(r) for r in q.evaluate()])
+    with q:
+        RULES[name](x, v)
+    st, res = guarded(lambda: ([rr(r) for r in q.evaluate()], [rr(r) for r in q.evaluate()], [rr(r) for r in q.evaluate()]))
+    rep.case(("rule", name, "grown"))
+    if st == "exc":
+        rep.fail("raised::rule-grown", f"rule tree '{name}' extended after a first evaluation, then evaluated: {type(res).__name__}: {res}", inp)
+    else:
+        for i, got in enumerate(res):
+            if got != ref:
+                rep.fail(f"rule-grown::{'order' if sorted(got) == sorted(ref) else 'content'}",
+                         f"rule tree '{name}' extended after a first evaluation: evaluation #{i + 1} afterwards gives {got}, a fresh query with the same tree {ref}", inp)
+                break
 # ------------------------------------------------------------------------------------------- a rule over several variables
 from krrood.entity_query_language.predicate import Symbol as _Symbol
 
